@@ -717,3 +717,251 @@ Module GridKernels.
   Qed.
   Print Assumptions C04_grid_track_sizing_partial.
 End GridKernels.
+
+(* ------------------------------------------------------------------------------------------------------------ *)
+(** * Whole trees: homogeneity through the engine skeleton (Model/Engine.v)
+
+   An algorithm (a resumption over the LayoutPartialTree interface) is HOMOGENEOUS w.r.t. relations RS / RI / RO / RL on
+   styles / inputs / outputs / stored layouts when related own style, related child styles and a related input give
+   resumptions that run in lockstep (Model/EngineRel.v AlgRel): same shape, same child addressed, related queries, related
+   SetLayouts, related results -- and, GIVEN related answers, related continuations.  For homogeneous algorithms the engine
+   (dispatch, display:none handling, hidden layout, exact-key memo with any cache contents) maps related trees and inputs to
+   related outputs and related trees: every node's stored unrounded layout of the scaled tree is the scaled layout.
+   The relations are parameters (closure hypotheses: run mode and display:none invariant, HIDDEN and the zero layout
+   self-related, the memo key respects the relation on inputs); the numeric content is in the instances below. *)
+From TV Require Model.Engine Model.EngineRel Proofs.EngineRelProofs.
+From TV Require Model.BlockAlg Model.BlockEngine Model.BlockEngineRel Model.BlockEngineExample.
+From TV Require Proofs.BlockAlgRel Proofs.EngineHomog Proofs.EngineExamples.
+
+Module EngineLevel.
+  Import TV.Model.Engine TV.Model.EngineRel TV.Proofs.EngineRelProofs.
+
+  (* the general invariant: ANY pair of related trees (related cache entries and stored layouts at every node, e.g. after a
+     common history of passes), memoised evaluation with the same fuel *)
+  Theorem C04_engine :
+    forall (S In Out Lay : Type) (mode : In -> RunMode) (in_eqb : In -> In -> bool) (is_none : S -> bool) (hidden_out : Out)
+           (zero_lay : Lay) (algo : S -> list S -> In -> Alg In Out Lay)
+           (RS : S -> S -> Prop) (RI : In -> In -> Prop) (RO : Out -> Out -> Prop) (RL : Lay -> Lay -> Prop),
+      (forall i i', RI i i' -> mode i' = mode i) -> (forall s s', RS s s' -> is_none s' = is_none s) ->
+      RO hidden_out hidden_out -> RL zero_lay zero_lay ->
+      (forall i1 i1' i2 i2', RI i1 i1' -> RI i2 i2' -> in_eqb i1' i2' = in_eqb i1 i2) ->
+      Homogeneous S In Out Lay RS RI RO RL algo ->
+      forall f t t' i i', trel S In Out Lay RS RI RO RL t t' -> RI i i' ->
+        oprel (res_rel S In Out Lay RS RI RO RL)
+              (memo S In Out Lay mode in_eqb is_none hidden_out zero_lay algo f t i)
+              (memo S In Out Lay mode in_eqb is_none hidden_out zero_lay algo f t' i').
+  Proof.
+    intros S In Out Lay mode in_eqb is_none hidden_out zero_lay algo RS RI RO RL Hm Hn Hh Hz Hk HA f t t' i i' Ht Hi.
+    apply (memo_rel S In Out Lay mode in_eqb is_none hidden_out zero_lay algo algo RS RI RO RL Hm Hn Hh Hz Hk HA); assumption.
+  Qed.
+  Print Assumptions C04_engine.
+
+  (* the cache-free evaluation (no hypothesis on the key) *)
+  Theorem C04_engine_plain :
+    forall (S In Out Lay : Type) (mode : In -> RunMode) (is_none : S -> bool) (hidden_out : Out)
+           (algo : S -> list S -> In -> Alg In Out Lay)
+           (RS : S -> S -> Prop) (RI : In -> In -> Prop) (RO : Out -> Out -> Prop) (RL : Lay -> Lay -> Prop),
+      (forall i i', RI i i' -> mode i' = mode i) -> (forall s s', RS s s' -> is_none s' = is_none s) -> RO hidden_out hidden_out ->
+      Homogeneous S In Out Lay RS RI RO RL algo ->
+      forall f t t' i i', skrel S RS t t' -> RI i i' ->
+        oprel RO (plain S In Out Lay mode is_none hidden_out algo f t i) (plain S In Out Lay mode is_none hidden_out algo f t' i').
+  Proof.
+    intros S In Out Lay mode is_none hidden_out algo RS RI RO RL Hm Hn Hh HA f t t' i i' Ht Hi.
+    apply (plain_rel S In Out Lay mode is_none hidden_out algo algo RS RI RO RL Hm Hn Hh HA); assumption.
+  Qed.
+  Print Assumptions C04_engine_plain.
+
+  (* the simplest reading: one pass over freshly built trees; the root output and the stored layout of EVERY node (as the
+     preorder list, and at every path) are related *)
+  Theorem C04_engine_fresh :
+    forall (S In Out Lay : Type) (mode : In -> RunMode) (in_eqb : In -> In -> bool) (is_none : S -> bool) (hidden_out : Out)
+           (zero_lay : Lay) (algo : S -> list S -> In -> Alg In Out Lay)
+           (RS : S -> S -> Prop) (RI : In -> In -> Prop) (RO : Out -> Out -> Prop) (RL : Lay -> Lay -> Prop),
+      (forall i i', RI i i' -> mode i' = mode i) -> (forall s s', RS s s' -> is_none s' = is_none s) ->
+      RO hidden_out hidden_out -> RL zero_lay zero_lay ->
+      (forall i1 i1' i2 i2', RI i1 i1' -> RI i2 i2' -> in_eqb i1' i2' = in_eqb i1 i2) ->
+      Homogeneous S In Out Lay RS RI RO RL algo ->
+      forall f k k' i i' o t1, skrel S RS k k' -> RI i i' ->
+        memo S In Out Lay mode in_eqb is_none hidden_out zero_lay algo f (fresh S In Out Lay zero_lay k) i = Some (o, t1) ->
+        exists o' t1',
+          memo S In Out Lay mode in_eqb is_none hidden_out zero_lay algo f (fresh S In Out Lay zero_lay k') i' = Some (o', t1') /\
+          RO o o' /\ Forall2 RL (lays S In Out Lay t1) (lays S In Out Lay t1') /\
+          forall p, oprel (fun u u' => RL (lay_of S In Out Lay u) (lay_of S In Out Lay u'))
+                          (subtree S In Out Lay t1 p) (subtree S In Out Lay t1' p).
+  Proof.
+    intros S In Out Lay mode in_eqb is_none hidden_out zero_lay algo RS RI RO RL Hm Hn Hh Hz Hk HA f k k' i i' o t1 Hkk Hi E.
+    pose proof (memo_fresh_rel S In Out Lay mode in_eqb is_none hidden_out zero_lay algo algo RS RI RO RL Hm Hn Hh Hz Hk HA
+                               f k k' i i' Hkk Hi) as H.
+    rewrite E in H. unfold oprel in H.
+    destruct (memo S In Out Lay mode in_eqb is_none hidden_out zero_lay algo f (fresh S In Out Lay zero_lay k') i') as [[o' t1']|];
+      [|contradiction].
+    destruct H as [Ho Ht]. cbn [fst snd] in Ho, Ht. exists o', t1'. split; [reflexivity|]. split; [exact Ho|].
+    split; [apply (trel_lays S In Out Lay RS RI RO RL); exact Ht|].
+    intros p. pose proof (trel_at S In Out Lay RS RI RO RL p t1 t1' Ht) as Hp. unfold oprel in *.
+    destruct (subtree S In Out Lay t1 p), (subtree S In Out Lay t1' p); try contradiction; [|exact I].
+    destruct Hp as [_ [_ [Hl _]]]. exact Hl.
+  Qed.
+  Print Assumptions C04_engine_fresh.
+
+  (* any sequence of layout passes with related root inputs, from any related trees *)
+  Theorem C04_engine_passes :
+    forall (S In Out Lay : Type) (mode : In -> RunMode) (in_eqb : In -> In -> bool) (is_none : S -> bool) (hidden_out : Out)
+           (zero_lay : Lay) (algo : S -> list S -> In -> Alg In Out Lay)
+           (RS : S -> S -> Prop) (RI : In -> In -> Prop) (RO : Out -> Out -> Prop) (RL : Lay -> Lay -> Prop),
+      (forall i i', RI i i' -> mode i' = mode i) -> (forall s s', RS s s' -> is_none s' = is_none s) ->
+      RO hidden_out hidden_out -> RL zero_lay zero_lay ->
+      (forall i1 i1' i2 i2', RI i1 i1' -> RI i2 i2' -> in_eqb i1' i2' = in_eqb i1 i2) ->
+      Homogeneous S In Out Lay RS RI RO RL algo ->
+      forall ps ps', Forall2 (fun p p' => fst p = fst p' /\ RI (snd p) (snd p')) ps ps' ->
+      forall t t', trel S In Out Lay RS RI RO RL t t' ->
+        trel S In Out Lay RS RI RO RL
+             (fold_left (pass S In Out Lay mode in_eqb is_none hidden_out zero_lay algo) ps t)
+             (fold_left (pass S In Out Lay mode in_eqb is_none hidden_out zero_lay algo) ps' t').
+  Proof.
+    intros S In Out Lay mode in_eqb is_none hidden_out zero_lay algo RS RI RO RL Hm Hn Hh Hz Hk HA.
+    apply (passes_rel S In Out Lay mode in_eqb is_none hidden_out zero_lay algo algo RS RI RO RL Hm Hn Hh Hz Hk HA).
+  Qed.
+  Print Assumptions C04_engine_passes.
+
+  (* the premise is closed under TaffyView::compute_child_layout's dispatch, and leaves satisfy it when their kernel does *)
+  Theorem C04_homogeneous_dispatch :
+    forall (S In Out Lay : Type) (RS : S -> S -> Prop) (RI : In -> In -> Prop) (RO : Out -> Out -> Prop) (RL : Lay -> Lay -> Prop)
+           (sel : S -> list S -> bool) (a1 a2 : S -> list S -> In -> Alg In Out Lay),
+      (forall s s' st st', RS s s' -> Forall2 RS st st' -> sel s' st' = sel s st) ->
+      Homogeneous S In Out Lay RS RI RO RL a1 -> Homogeneous S In Out Lay RS RI RO RL a2 ->
+      Homogeneous S In Out Lay RS RI RO RL (fun s st i => if sel s st then a1 s st i else a2 s st i).
+  Proof. intros S In Out Lay RS RI RO RL sel a1 a2. apply AlgoRel_dispatch. Qed.
+  Print Assumptions C04_homogeneous_dispatch.
+
+  Theorem C04_homogeneous_leaf :
+    forall (S In Out Lay : Type) (RS : S -> S -> Prop) (RI : In -> In -> Prop) (RO : Out -> Out -> Prop) (RL : Lay -> Lay -> Prop)
+           (leaf : S -> In -> Out),
+      (forall s s' i i', RS s s' -> RI i i' -> RO (leaf s i) (leaf s' i')) ->
+      Homogeneous S In Out Lay RS RI RO RL (fun s _ i => Ret In Out Lay (leaf s i)).
+  Proof. intros S In Out Lay RS RI RO RL leaf. apply AlgoRel_leaf. Qed.
+  Print Assumptions C04_homogeneous_leaf.
+End EngineLevel.
+
+(* ------------------------------------------------------------------------------------------------------------ *)
+(** * Whole trees of block containers and leaves (Model/BlockEngine.v): NO premise on the algorithms
+
+   S = a block style + a measure function; containers run Model/BlockAlg.v `block_alg` (compute_inner as a resumption: item
+   pipeline translated from source, determine_content_based_container_width's measuring queries, the K2-validated in-flow
+   step with the children's outputs as ANSWERS, absolute pass, hidden pass), childless nodes run compute_leaf_layout
+   (Model/Leaf.v, behind an adapter).  Relations: bnode_rel k (bstyle_rel k + measure_homog k), bin_rel k, bout_rel k,
+   blay_rel k.  The block resumption has two parameters: `pre` (compute_block_layout's preprocessing of the known
+   dimensions) and `abs_child` (what the absolute pass does for one item); homogeneity of the resumption is proved for ALL
+   parameters satisfying PreRel / AbsChildRel (C04_block_algorithm_homogeneous) and these are discharged for `block_pre`
+   (the model of block.rs l.64-122) and `abs_child_simple`.  The real absolute-item routine (C04_abs_block is about its
+   kernel, in the vocabulary of Model/AbsPos.v) is not plugged in: AbsChildRel stays a premise for it.  Flex and grid
+   containers: Homogeneous remains a premise (C04_engine), and is FALSE for flex in the known-finding class. *)
+Module BlockTrees.
+  Import TV.Gen.BlockGen TV.Model.Block TV.Model.ScaleBlock TV.Proofs.ScaleKit TV.Proofs.ScaleBlock.
+  Import TV.Model.Engine TV.Model.EngineRel TV.Proofs.EngineRelProofs.
+  Import TV.Model.BlockAlg TV.Model.BlockEngine TV.Model.BlockEngineRel TV.Model.BlockEngineExample.
+  Import TV.Proofs.BlockAlgRel TV.Proofs.EngineHomog TV.Proofs.EngineExamples.
+  Import ListNotations.
+
+  (* the block resumption, any parameters *)
+  Theorem C04_block_algorithm_homogeneous :
+    forall k (pre : BStyle XQ -> BIn XQ -> BIn XQ) (abs_child : @AbsChild XQ), 0 < k ->
+      PreRel k (bstyle_rel k) pre -> AbsChildRel k (bstyle_rel k) abs_child ->
+      forall st st' children children' inp inp',
+        bstyle_rel k st st' -> Forall2 (bstyle_rel k) children children' -> bin_rel k inp inp' ->
+        AlgRel (BIn XQ) (ChildOut XQ) (BLayout XQ) (bin_rel k) (bout_rel k) (blay_rel k)
+               (block_alg pre abs_child st children inp) (block_alg pre abs_child st' children' inp').
+  Proof.
+    intros k pre abs_child Hk Hpre Habs st st' children children' inp inp'.
+    apply (block_alg_rel k Hk (bstyle_rel k) (wrel_of_rel k Hk)); assumption.
+  Qed.
+  Print Assumptions C04_block_algorithm_homogeneous.
+
+  (* ... and the two premises hold for the modelled preprocessing and the simple absolute-item routine *)
+  Theorem C04_block_parameters_homogeneous : forall k, 0 < k ->
+    PreRel k (bstyle_rel k) block_pre /\ AbsChildRel k (bstyle_rel k) (abs_child_simple (T := XQ)).
+  Proof.
+    intros k Hk. split; [apply (block_pre_rel k Hk (bstyle_rel k) (wrel_of_rel k Hk))|apply (abs_child_simple_rel k Hk)].
+  Qed.
+  Print Assumptions C04_block_parameters_homogeneous.
+
+  (* the leaf: C04_leaf through the adapter *)
+  Theorem C04_engine_leaf : forall k s s' m m' i i', 0 < k ->
+    bstyle_rel k s s' -> TV.Model.Scale.measure_homog k m m' -> bin_rel k i i' -> bout_rel k (leaf_out s m i) (leaf_out s' m' i').
+  Proof. intros k s s' m m' i i' Hk. apply (leaf_out_homog k Hk). Qed.
+  Print Assumptions C04_engine_leaf.
+
+  (* the engine's algorithm (dispatch on has_children) is homogeneous: no premise *)
+  Theorem C04_block_engine_homogeneous : forall k, 0 < k ->
+    Homogeneous (BNode XQ) (BIn XQ) (ChildOut XQ) (BLayout XQ) (bnode_rel k) (bin_rel k) (bout_rel k) (blay_rel k)
+                (bl_algo block_pre abs_child_simple).
+  Proof. intros k Hk. apply (bl_algo_homog_inst k Hk). Qed.
+  Print Assumptions C04_block_engine_homogeneous.
+
+  (* hence: any two related trees (related cache entries and stored layouts; in particular both fresh), related inputs, the
+     same fuel -- both evaluations fail, or both return, with related outputs and related trees *)
+  Theorem C04_block_engine_instance : forall k, 0 < k ->
+    forall f t t' i i',
+      trel (BNode XQ) (BIn XQ) (ChildOut XQ) (BLayout XQ) (bnode_rel k) (bin_rel k) (bout_rel k) (blay_rel k) t t' -> bin_rel k i i' ->
+      oprel (res_rel (BNode XQ) (BIn XQ) (ChildOut XQ) (BLayout XQ) (bnode_rel k) (bin_rel k) (bout_rel k) (blay_rel k))
+            (bl_memo block_pre abs_child_simple f t i) (bl_memo block_pre abs_child_simple f t' i').
+  Proof.
+    intros k Hk. apply (block_engine_homog k Hk).
+    - apply (block_pre_rel k Hk (bstyle_rel k) (wrel_of_rel k Hk)).
+    - apply (abs_child_simple_rel k Hk).
+  Qed.
+  Print Assumptions C04_block_engine_instance.
+
+  (* the same for ANY preprocessing and absolute-item routine satisfying the two premises (e.g. the translated absolute
+     routine, once AbsChildRel is shown for it) *)
+  Theorem C04_block_engine_instance_parametric :
+    forall k (pre : BStyle XQ -> BIn XQ -> BIn XQ) (abs_child : @AbsChild XQ), 0 < k ->
+      PreRel k (bstyle_rel k) pre -> AbsChildRel k (bstyle_rel k) abs_child ->
+      forall f t t' i i',
+        trel (BNode XQ) (BIn XQ) (ChildOut XQ) (BLayout XQ) (bnode_rel k) (bin_rel k) (bout_rel k) (blay_rel k) t t' -> bin_rel k i i' ->
+        oprel (res_rel (BNode XQ) (BIn XQ) (ChildOut XQ) (BLayout XQ) (bnode_rel k) (bin_rel k) (bout_rel k) (blay_rel k))
+              (bl_memo pre abs_child f t i) (bl_memo pre abs_child f t' i').
+  Proof. intros k pre abs_child Hk. apply (block_engine_homog k Hk). Qed.
+  Print Assumptions C04_block_engine_instance_parametric.
+
+  (* "multiplying every length of the tree by k multiplies every unrounded output length of every node by k": fresh trees,
+     the input scaled functionally; blay_rel k l l' says l' is l with every length multiplied by k, up to the equality of
+     rationals (blay_rel_scale: blay_rel k l (blay_scale k l)) *)
+  Theorem C04_block_engine_scaled_layouts : forall k, 0 < k ->
+    forall f (t t' : sk (BNode XQ)) i o t1,
+      skrel (BNode XQ) (bnode_rel k) t t' ->
+      bl_memo block_pre abs_child_simple f (bl_fresh t) i = Some (o, t1) ->
+      exists o' t1',
+        bl_memo block_pre abs_child_simple f (bl_fresh t') (bin_scale k i) = Some (o', t1') /\
+        bout_rel k o o' /\
+        Forall2 (blay_rel k) (lays (BNode XQ) (BIn XQ) (ChildOut XQ) (BLayout XQ) t1) (lays (BNode XQ) (BIn XQ) (ChildOut XQ) (BLayout XQ) t1').
+  Proof.
+    intros k Hk f t t' i o t1 Ht E.
+    pose proof (C04_block_engine_instance k Hk f (bl_fresh t) (bl_fresh t') i (bin_scale k i) (bl_fresh_rel k t t' Ht) (bin_rel_scale k i)) as H.
+    rewrite E in H. unfold oprel in H.
+    destruct (bl_memo block_pre abs_child_simple f (bl_fresh t') (bin_scale k i)) as [[o' t1']|]; [|contradiction].
+    destruct H as [Ho Ht1]. cbn [fst snd] in Ho, Ht1. exists o', t1'. split; [reflexivity|]. split; [exact Ho|].
+    apply (trel_lays (BNode XQ) (BIn XQ) (ChildOut XQ) (BLayout XQ) (bnode_rel k) (bin_rel k) (bout_rel k) (blay_rel k)). exact Ht1.
+  Qed.
+  Print Assumptions C04_block_engine_scaled_layouts.
+
+  (* non-vacuity: the tree of Model/BlockEngineExample.v (a block root with a measured leaf, a nested block container with
+     two measured leaves and a display:none child, an absolute child, a percentage-width leaf) and the same tree with every
+     length multiplied by 5/2 satisfy the premises, both evaluations succeed (vm_compute), the (x, y, width, height) of the
+     eight nodes are as listed, and every field of every stored layout and of the root output is multiplied by 5/2 *)
+  Example C04_block_engine_example :
+    skrel (BNode XQ) (bnode_rel (5 # 2)) ex_tree (ex_tree_scaled (5 # 2)) /\
+    skrel (BNode XQ) (bnode_rel (5 # 2)) ex_subtree (ex_subtree_scaled (5 # 2)) /\
+    bin_rel (5 # 2) ex_input (bin_scale (5 # 2) ex_input) /\
+    ex_boxes ex_tree ex_input
+             [box 0 0 0 0; box 6 10 200 24; box 6 40 200 44; box 4 4 52 22; box 0 0 0 0; box 4 26 192 14; box 6 84 0 0; box 6 84 100 12] = true /\
+    ex_root_size ex_tree ex_input 212 102 = true /\
+    ex_scaled_ok (5 # 2) ex_tree (ex_tree_scaled (5 # 2)) ex_input = true /\
+    (* the container B alone under max-content: its width is content-based (52 + 8), found by measuring queries *)
+    ex_root_size ex_subtree ex_input_max 60 44 = true /\
+    ex_scaled_ok (5 # 2) ex_subtree (ex_subtree_scaled (5 # 2)) ex_input_max = true.
+  Proof.
+    split; [apply ex_scaled_rel; reflexivity|]. split; [apply ex_scaled_rel; reflexivity|]. split; [apply bin_rel_scale|].
+    repeat split; vm_compute; reflexivity.
+  Qed.
+  Print Assumptions C04_block_engine_example.
+End BlockTrees.
